@@ -116,17 +116,41 @@ func c13Resolve(c *runCtx) {
 				panic(err)
 			}
 			nc := c.rng.intn(4)
+			// a comment's combined id is that of the bug and of the operation that made it — whatever
+			// happens to the comment later (edits do not give it another address)
+			want := []entity.CombinedId{entity.CombineIds(b.Id(), b.Id())}
 			for j := 0; j < nc; j++ {
-				if _, _, err := b.AddComment(fmt.Sprintf("comment %d", j)); err != nil {
+				cid, op, err := b.AddComment(fmt.Sprintf("comment %d", j))
+				if err != nil {
 					panic(err)
+				}
+				if cid != entity.CombineIds(b.Id(), op.Id()) {
+					c.violation(-1, "C13/combined-id", fmt.Sprintf("AddComment returned %s, which is not the interleaving of the bug id and the operation id", cid), nil)
+				}
+				want = append(want, entity.CombineIds(b.Id(), op.Id()))
+			}
+			for j := range want {
+				if c.rng.chance(1, 3) {
+					if _, err := b.EditComment(want[j], fmt.Sprintf("edited %d", j)); err != nil {
+						c.violation(-1, "C13/comment-not-found", fmt.Sprintf("a comment cannot be edited through its combined id %s: %v", want[j], err), nil)
+					}
+					c.count("population:edited-comment")
+					if c.rng.chance(1, 3) {
+						b.EditComment(want[j], fmt.Sprintf("edited again %d", j))
+					}
 				}
 			}
 			if c.rng.chance(1, 2) {
 				b.Commit()
 			}
 			cb := c13Bug{Id: string(b.Id())}
-			for _, cm := range b.Snapshot().Comments {
-				cb.Comments = append(cb.Comments, string(cm.CombinedId()))
+			for _, w := range want {
+				cb.Comments = append(cb.Comments, string(w))
+			}
+			for k, cm := range b.Snapshot().Comments {
+				if k < len(want) && cm.CombinedId() != want[k] {
+					c.violation(-1, "C13/combined-id", fmt.Sprintf("comment %d of bug %s is listed under the combined id %s instead of %s", k, b.Id().Human(), cm.CombinedId(), want[k]), nil)
+				}
 			}
 			bugs = append(bugs, cb)
 		}
